@@ -5,6 +5,8 @@ from collections import defaultdict
 
 from jaqalpaq.core.algorithm.visitor import Visitor
 from jaqalpaq.core import Macro
+from jaqalpaq.core.parameter import Parameter
+from jaqalpaq.core.register import NamedQubit
 from jaqalpaq.error import JaqalError
 
 
@@ -65,7 +67,14 @@ class UsedQubitIndicesVisitor(Visitor):
         # Note: This could be more elegant with a is_macro method on gates
         if isinstance(obj.gate_def, Macro):
             context = context or {}
-            macro_context = {**context, **obj.parameters}
+            # The arguments of the call are evaluated in the scope of the call;
+            # binding them unevaluated would let a formal parameter of the
+            # callee capture a same-named parameter of the caller.
+            arguments = {
+                name: self.bind_argument(arg, context)
+                for name, arg in obj.parameters.items()
+            }
+            macro_context = {**context, **arguments}
             macro_body = obj.gate_def.body
             return self.visit(macro_body, macro_context)
         else:
@@ -75,6 +84,18 @@ class UsedQubitIndicesVisitor(Visitor):
                 else:
                     self.merge_into(indices, self.visit(param, context=context))
             return indices
+
+    def bind_argument(self, arg, context):
+        """Evaluate the argument of a macro call in the context of the call."""
+        if isinstance(arg, Parameter):
+            return arg.resolve_value(context)
+        if isinstance(arg, NamedQubit) and (
+            isinstance(arg.alias_from, Parameter)
+            or isinstance(arg.alias_index, Parameter)
+        ):
+            reg, idx = arg.resolve_qubit(context)
+            return reg[idx]
+        return arg
 
     def visit_Parameter(self, obj, context=None):
         return self.visit(obj.resolve_value(context=context), context=context)
